@@ -14,7 +14,7 @@ claims = {
    technique="bounded exhaustive enumeration of (route set, request) pairs against a reference model (differential)"),
  "C02": dict(level="model_checking", design="4/C02",
    text="Explicit-state BFS over the registration API of the real router (Handle/HandleRoute/Update/UpdateRoute/Delete/Truncate, direct / committed txn / aborted txn, malformed inputs) from the empty router; states deduplicated on (map model, canonical tree dump); every transition checked against a sequential map model on results, error classes, conflict sets and every read API (router, read-only txn, inside the write txn).",
-   note="State merging assumes no hidden mutable state beyond the dumped tree; conflict rule of the model stated in evidence. Bounds: two pools (shared prefixes/hostnames: 10 patterns x 2-3 methods, <=2-3 live routes expanded; siblings: 7 patterns, <=5-6 live routes).",
+   note="State merging assumes no hidden mutable state beyond the dumped tree; conflict rule of the model stated in evidence. The state key also records whether the last operation was a committed managed transaction (a twin per state), so that state kept outside the tree across transactions is exercised. Bounds: six pools (shared prefixes/hostnames: 10 patterns x 2-3 methods, <=2-3 live routes expanded; siblings: 7 patterns, <=5-6 live routes; methods, nested, hosts, infix2).",
    technique="explicit-state breadth-first search over the implementation's transition function with a reference-model oracle on every transition"),
  "C03": dict(level="model_checking", design="4/C03",
    text="Sequential: every operation sequence up to a length from every seed state, in five modes (direct, one committed managed transaction per operation, inside one committed/aborted write transaction, issued from inside a request handler); all four kinds of snapshot (Router.Iter, read-only Txn, Txn.Snapshot, Txn.Iter, the request being served) are taken and re-read after every later operation and ending, and the final state is compared with the snapshot-free twin. Eviction: transactions touching 5000 inner nodes (copy cache 4096). Concurrent: all interleavings up to a preemption bound of a reader re-reading a snapshot against committing writers.",
@@ -65,7 +65,7 @@ claims = {
    note="The recording underlying writer follows net/http (1xx except 101 informational; first body byte implies 200; flush sends the header).",
    technique="exhaustive enumeration of call sequences x fault positions against a ledger model + differential between fast and slow path"),
  "C15": dict(level="fault_enumeration", design="4/C15",
-   text="Complete product panic value (13) x response progress (4) x panic site (5) x spelling of each credential-bearing header (26), plus Updates/View panicking after every prefix: nothing escapes ServeHTTP except ErrAbortHandler (same value), 500 iff nothing written and not a broken connection, started responses untouched, router usable afterwards (routes, requests, a write completes), diagnostic record names route/params/request line and contains no secret.",
+   text="Complete product panic value (16) x response progress (5) x panic site (9) x spelling of each credential-bearing header (26) x state of the request context (3), plus Updates/View panicking after every prefix: nothing escapes ServeHTTP except ErrAbortHandler (same value), 500 iff nothing written and not a broken connection, started responses untouched, router usable afterwards (routes, requests, a write completes), diagnostic record names route/params/request line and contains no secret.",
    note="Wrapped broken-connection errors abstained for the 500 rule. Lock release decided by the shim.",
    technique="fault enumeration: exhaustive product of injected panics x progress x site x header spelling"),
  "C16": dict(level="exploration", design="4/C16",
